@@ -33,7 +33,8 @@ def score_c07(chk: Check, ep: qos.Episode, res: qos.Result) -> None:
             chk.violation("c07.late", f"call {i} finished after {t_done - t0:.6f}s, timeout {bound}", {"episode": ep.to_json()})
         if kind == "ok":
             if txt not in (echo, reply):
-                kind2 = ".foreign-same-header-request" if txt in qos.FOREIGN and txt[:2] in ("RQ", " W") else ""
+                kind2 = (".foreign-same-header-request" if txt in qos.FOREIGN and txt[:2] in ("RQ", " W")
+                         else ".foreign-same-header-reply" if txt in qos.FOREIGN and txt[:2] in ("RP", " I") else "")
                 chk.violation("c07.wrong_packet" + kind2, f"call {i} ({q!r}) returned {txt!r}", {"episode": ep.to_json()})
         else:
             if "ProtocolError" not in txt:
